@@ -146,9 +146,9 @@ func r6Rps(spec string) string {
 func genRound6(r *rand.Rand, thorough bool) []string {
 	var out []string
 	add := func(ops ...string) { out = append(out, "k=wait ops="+strings.Join(ops, ",")) }
-	late := func() string { return "t-" + strconv.Itoa(2600+r.Intn(4000)) }  // overdue
-	soon := func() string { return "t-" + strconv.Itoa(r.Intn(1400)) }       // late, not overdue
-	future := func() string { return "t" + strconv.Itoa(1+r.Intn(60)) }      // the waiter sleeps
+	late := func() string { return "t-" + strconv.Itoa(2600+r.Intn(4000)) } // overdue
+	soon := func() string { return "t-" + strconv.Itoa(r.Intn(1400)) }      // late, not overdue
+	future := func() string { return "t" + strconv.Itoa(1+r.Intn(60)) }     // the waiter sleeps
 	// every ordered pair and triple of token kinds: what the waiter remembers of one token meets every kind of next token
 	kinds := []func() string{late, soon, future}
 	for _, a := range kinds {
@@ -160,10 +160,10 @@ func genRound6(r *rand.Rand, thorough bool) []string {
 		}
 	}
 	add("t-3000", "t40", "t-200", "t30", "t-5000", "t-1", "t0", "t25")
-	add("t30", "z40", "t-15", "t-2700", "z35", "t-20", "t10")           // the cached reading is old: second clock reading
-	add("t-2800", "e", "t20")                                            // a finished schedule resets
-	add("t-2800", "c", "t20", "t-3000")                                  // a cancelled context: no token is waited for, nothing is slow
-	add("t5", "z2300", "t-2200", "t15", "t-100")                         // overdue found by the SECOND reading of the clock
+	add("t30", "z40", "t-15", "t-2700", "z35", "t-20", "t10") // the cached reading is old: second clock reading
+	add("t-2800", "e", "t20")                                 // a finished schedule resets
+	add("t-2800", "c", "t20", "t-3000")                       // a cancelled context: no token is waited for, nothing is slow
+	add("t5", "z2300", "t-2200", "t15", "t-100")              // overdue found by the SECOND reading of the clock
 	n := 40
 	if thorough {
 		n = 600
